@@ -53,7 +53,9 @@ BASE_ASSUMPTIONS = [
 
 def perturb(m):
     """wrong-oracle twin: shift one entry so the twin must be refuted"""
-    m = np.array(m, dtype=object) if not (isinstance(m, np.ndarray) and m.dtype != object) else np.array(m, dtype=complex)
+    from symx.proxy import isobj
+
+    m = np.array(m, dtype=object) if not (isinstance(m, np.ndarray) and not isobj(m)) else np.array(m, dtype=complex)
     idx = tuple(s - 1 for s in m.shape)
     m[idx] = m[idx] * 1.0 + 0.01
     return m
